@@ -53,7 +53,7 @@ SnapClass(r) ==
   ELSE IF ~r.ready.join THEN (IF joined # {} THEN "join-content-before-ready" ELSE "")
   ELSE IF joined # Expected(r) THEN (IF r.kind = "rc" THEN "rc-selection" ELSE "join-selection")
   ELSE IF Len(r.joined) # Cardinality(joined) THEN "join-duplicates"
-  ELSE IF r.kind # "ingress" /\ r.prev # "" /\ r.prev # "gated" /\ prev.known THEN   \* (no subscriber is attached to the services join)
+  ELSE IF r.kind # "ingress" /\ r.prev # "" /\ r.prev # "gated" /\ prev.known /\ Len(r.events) < 50 THEN   \* (a window the subscriber's buffer certainly held)   \* (no subscriber is attached to the services join)
        (LET rp == ReplayKeys(prev.S, r.events) IN IF ~rp.ok \/ rp.S # joined THEN "join-events-not-delta" ELSE "")
   ELSE ""
 
